@@ -26,6 +26,7 @@ class Recorder:
         self.seen_buckets = set()
         self.excluded_buckets = set()
         self.skipped = 0
+        self.inc_samples = {}
 
     def expired(self):
         if time.time() > self.deadline:
@@ -54,6 +55,10 @@ class Recorder:
                 new_bucket = b
         elif out["status"] in ("inconclusive", "invalid_config"):
             rec["reason"] = out.get("reason")
+            rkey = str(out.get("reason"))[:60]
+            if self.inc_samples.get(rkey, 0) < 1 and len(self.inc_samples) < 6:
+                self.inc_samples[rkey] = 1
+                rec["case"] = case
         if out["status"] == "ok" and out.get("nontrivial"):
             # keep a few written-out samples, spread over labels
             key = ",".join(out.get("labels", [])[:3])
